@@ -19,6 +19,10 @@ CLAIMS = {
          "NOT yet under contract (no obligation generated, so a change there is not detected by this check): byte content of data and index blocks versus the entry list (Data/Index Encode-Decode round trip), Data/Index.Decode, wal.Write/Read and the thrift record codec, s2 compression (utils.Compress/Decompress trusted as inverse functions). 'whatever other goroutines encode concurrently' is decided as ownership: the result is unreachable from the pool, so no other activation can write it (sync.Pool trusted).", "4-C11"),
  "C13": ("Proof on the consumer loop `process` (the only writer of doneUntil), for every sequence of consumed marks (the received mark is unconstrained at every iteration: any arrival order, repeated indices, Done without Begin, any number in flight), with ghost books of the consumed history (begun-minus-finished PB, first-seen, value of doneUntil when an index became open) and loop invariants for all four loops: (monotone) every Store writes a strictly larger value; (safety) an index that is open in the books never has doneUntil >= it unless doneUntil has not moved since it became open; (catch-up) after every iteration the heap is empty or its minimum is unfinished, every consumed index that is no longer pending is <= doneUntil, hence doneUntil >= t once every begun index up to t is finished - as a state predicate that holds as soon as the marks have been consumed; (waiters) a waiter channel is closed only when doneUntil >= its index, every registered waiter whose index is <= doneUntil is closed before the next mark is taken, no channel is closed twice or when nil, a waiter above the mark stays registered. lowHeap.Len/Less/Swap/Push/Pop meet the heap.Interface contracts. The exact-books invariant fails for a Done consumed before its Begin: known finding D15 (demonstrated on the real type).",
          "trusted: container/heap over a correct heap.Interface returns the minimum (library contract heap.*[*watermark.lowHeap]); sync/atomic sequentially consistent, doneUntil single-writer; channel FIFO: consumption order = send order; the client methods Begin/Done/WaitForMark (channel sends, select) are trusted contracts whose link to the loop invariant is FIFO delivery - a change inside Begin/Done/WaitForMark is not detected by this check; every waiter request carries a channel of its own (assumption listed in evidence); scheduling fairness ('without further calls' = once the buffered marks are consumed); sequential semantics between blocking operations", "4-C13"),
+ "C09": ("Partial proof, at the level of the entry lists compaction works on: (1) kway.merge (the k-way heap merge used by compactL0/compactLN through MergeVersions) returns, for every versioned key of the inputs, exactly one input entry with that key - the one of the newest input list - tombstones included (after one fix: commit), strictly sorted by CompareKeys, nothing invented; Heap.Len/Less/Swap/Push/Pop meet the heap.Interface contracts. (2) discardStaleEntries with watermark low keeps every version above low and, per user key, the newest version at or below low (a tombstone counts as a version), keeps nothing that was not an input, returns the list sorted; with low == 0 it returns the input. So a lookup at any read timestamp >= low finds the same newest version <= ts before and after. (3) discardAtOrBelow returns a value <= the read timestamp of every open reader (watermark client contract, C13). All for every list length, version pattern, tombstone pattern and keys with bytes below '@'.",
+         "NOT decided by this check (no obligation generated; a change there is not detected): which tables compactL0/compactLN/overlapL0/overlapLN/boundary select (D5: boundary compares raw strings - open, not demonstrated here), that the merged list is written, re-read and installed in place of the inputs (table.Build/C11, file order D6 - C03/C14), cascaded compaction, handles rebuilt by recovery. Trusted: container/heap, slices.SortFunc (permutation + sorted), watermark client contracts, sequential semantics under levelManager.mu", "4-C09"),
+ "C15": ("Proof of a sufficient condition for deadlock freedom, not of the time bound: every blocking operation of every function of the engine, wal and watermark packages (Lock/RLock, channel send/receive, blocking select, WaitGroup.Wait, WaitForMark - also those reached through callees, by a transitive summary over static calls) is an obligation: its declared wait level is strictly above the level of every lock the activation holds at that point (ghost lockset of C12) and of every wait object the activation serves (run serves the senders on flushC/closeC and the receiver of closed; Commit and the watermark consumer serve WaitForMark). With levels wait:mark < oracle.writeLock < oracle.Mutex < flushC/closeC/closed < DB.mu < levelManager.mu < memtable.mu < WAL.mu < markC the waits-for graph is acyclic for every queue length (including 0) and every schedule: e.g. 'no lock the flusher needs is held while sending on flushC', 'readTs waits for commits while holding nothing'. An undeclared blocking operation fails the run.",
+         "NOT decided: 'within bounded time' (liveness; needs a fair scheduler, terminating file-system calls and loop termination - no decreases clauses are checked here); the Close handshake credit - that somebody still receives from flushC after run left its loop (D14: a Commit racing Close can be stranded; no obligation of this check expresses it, so it is neither proved nor reported); that the directory can be reopened with the complete state (C02). Levels are per type and field, not per object; interface calls (logger, hash) are assumed not to block on engine objects; sync, channels and the scheduler trusted.", "4-C15"),
  "C07": ("Proof at the level of fingerprints: hasConflict returns true exactly when a remembered committed transaction with ts > readTs wrote a read fingerprint (nested-loop invariants); cleanUpCommittedTxns keeps exactly the entries above the new mark (in-place filter with aliasing slices); newCommitTs refuses exactly when the ghost commit history Hist contains such a transaction (oracle invariant orcInv/histInv: nothing above the clean-up mark is forgotten, the mark never exceeds an open reader); Get records a fingerprint only for store reads; Commit returns ErrConflictTxn iff that holds and then changes neither View nor Hist; read-only / write-only transactions cannot conflict (empty readsFp).",
          "sequential semantics of each critical section (oracle lock held); watermark client contracts trusted (justified by C13); utils.Hash as an uninterpreted deterministic function: the key-level statement equals the fingerprint-level one when no two keys in play collide; DB.search/rawset used through their contracts; fewer than 2^63 commits", "4-C07"),
  "C08": ("Proof: modify/Set/Delete return the documented error in exactly the documented cases and then change nothing; otherwise they only touch the private buffer (frame conditions proved: assigns map pendingWrites, map writesFp). Discard only sets flags and finishes the read mark. Commit on a discarded transaction returns ErrDiscardedTxn, on conflict ErrConflictTxn, in both cases with View and Hist unchanged. View/Update return ErrDBClosed when closed, Update returns the closure's error without calling Commit and with View unchanged.",
